@@ -47,7 +47,7 @@ _big.__code__ = _big.__code__.replace(co_stacksize=1_000_000)
 
 
 def scratch_root() -> str:
-    d = os.path.join(VERIF, ".scratch", str(os.getpid()))
+    d = os.path.join(VERIF, ".scratch", os.environ.get("VF_MAIN_PID", str(os.getpid())))
     os.makedirs(d, exist_ok=True)
     return d
 
@@ -64,6 +64,7 @@ def ensure_env():
         env.pop("SQLFLUFF_CONFIG", None)
         os.execve(sys.executable, [sys.executable, "-m", "vf.run"] + sys.argv[1:], env)
     root = scratch_root()
+    os.environ["VF_MAIN_PID"] = str(os.getpid())
     home = os.path.join(root, "home")
     os.makedirs(home, exist_ok=True)
     os.environ["HOME"] = home
